@@ -60,20 +60,30 @@ def _seed_envelope_source(ctx: Ctx, base_id: int) -> list[dict]:
         da, db = min(31, a + skew[0]), min(31, max(0, b + skew[1]))
         if (da, db) < (a, b):
             da, db = a, b
+        if k % 4 == 3 and (a, b) > (0, 0):
+            # the opposite case: what was retrieved earlier is for a PAST interval of this L0 (the process has been running for
+            # a while).  It does not cover now: whatever the library does (ask the DC again), it must not name the past interval
+            pa = rng.randrange(0, a + 1)
+            pb = rng.randrange(0, b) if pa == a and b > 0 else (rng.randrange(32) if pa < a else 0)
+            if (pa, pb) < (a, b):
+                da, db, skew = pa, pb, ("stale", pa - a, pb - b)
         ft = ((l0 * 32 + a) * 32 + b) * BASE + rng.randrange(BASE)
         h = rng.choice(["SHA1", "SHA256", "SHA384", "SHA512"])
         rkid = uuid.UUID(bytes=rng.randbytes(16))
         dc = refdc.DC()
         dc.add_root_key(rkid, refdc.RootKeyInfo(rng.randbytes(64), h, "DH"))
         dc.now = (l0, da, db)
+        stale = isinstance(skew[0], str)
         cache = dpapi_ng.KeyCache()
         ks = dc.keyset(rkid, sdref.target_sd(SID), l0)
         prime = blobref.make_blob(h, ks.l2(da, db), rkid, l0, da, db, SID, b"prime", rng.randbytes)
-        row = {"id": base_id + k, "kind": f"seed-source skew {skew}", "t": limbs(ft), "t2": limbs(ft), "l0": -1, "l1": -1, "l2": -1, "res": "blob", "flavour": "sync"}
+        row = {"id": base_id + k, "kind": "seed-source stale" if stale else f"seed-source skew {skew}", "t": limbs(ft), "t2": limbs(ft), "l0": -1, "l1": -1, "l2": -1, "res": "blob", "flavour": "sync"}
         try:
             with refdc.Network(dc):
                 dpapi_ng.ncrypt_unprotect_secret(prime, server="dc01", username=user, password=refdc.PASSWORD, auth_protocol="ntlm", cache=cache)
             n_before = len(dc.getkey_log)
+            if stale:
+                dc.now = (l0, a, b)        # the DC's clock agrees with the client's again: a fresh GetKey names the current interval
             with taps.clock(client, (ft - EPOCH) * 100), taps.KdfTap(budget=300, record=False), refdc.Network(dc):
                 blob = dpapi_ng.ncrypt_protect_secret(b"x", SID, root_key_identifier=rkid, cache=cache, server="dc01", username=user,
                                                       password=refdc.PASSWORD, auth_protocol="ntlm")
